@@ -39,7 +39,9 @@ def canon_sstate(s: dict) -> dict:
             "status": s["status"], "ctx": dict(ctx), "output": s.get("output", "NONE"),
             "queue": list(s.get("queue") or []), "now": s.get("now", 0), "busy": s.get("busy", 0),
             "timers": sorted([list(t) for t in (s.get("timers") or [])]),
-            "svcs": sorted([list(t) for t in (s.get("svcs") or [])])}
+            "svcs": sorted([list(t) for t in (s.get("svcs") or [])]),
+            # identity only (what a suspended macrostep still has to do): never compared with the engine
+            "susp": [sorted(x) for x in (s.get("susp") or [])], "pend": [list(x) for x in (s.get("pend") or [])]}
 
 
 class SEdge:
@@ -191,6 +193,9 @@ def strip_slow(cfg: dict) -> dict:
                 acts = t.get("actions") if isinstance(t, dict) else None
                 if isinstance(acts, list) and any(isinstance(a, str) and a.startswith("slow:") for a in acts):
                     del on[ev]
+        for k in ("entry", "exit"):
+            if isinstance(n.get(k), list):
+                n[k] = [a for a in n[k] if not (isinstance(a, str) and a.startswith("slow:"))]
         for ch in (n.get("states") or {}).values():
             walk(ch)
     walk(c)
